@@ -210,6 +210,33 @@ def h_eqne(ctx, cfg):
   ctx.prove((f == 3) is False or not bool(f == 3), "eq-with-non-filter")
 
 
+def h_eq_order(ctx, cfg):
+  """The same filter written with its terms in another order (dict order, operand order) is ==, not !=, and hashes
+  equally - also with fractional delays, where the terms are kept in creation order."""
+  from audiolazy import ZFilter, z
+  eb, ea = cfg["eb"], cfg["ea"]
+  f, fb, fa = _mk(ctx, "f", len(eb), len(ea), exps_b=eb, exps_a=ea)
+  how = cfg["how"]
+  if how == "dict":
+    g = ZFilter(dict(reversed(list(fb.items()))), dict(reversed(list(fa.items()))))
+  else:      # operator order: sum of the monomials, last term first
+    num = sum((fb[k] * z ** -k for k in reversed(eb[:-1])), fb[eb[-1]] * z ** -eb[-1])
+    den = sum((fa[k] * z ** -k for k in reversed(ea[:-1])), fa[ea[-1]] * z ** -ea[-1])
+    g = num / den
+    if how == "ops-vs-ops":
+      num2 = sum((fb[k] * z ** -k for k in eb[1:]), fb[eb[0]] * z ** -eb[0])
+      den2 = sum((fa[k] * z ** -k for k in ea[1:]), fa[ea[0]] * z ** -ea[0])
+      f = num2 / den2
+  fn, fd = _ratio(f); gn, gd = _ratio(g)
+  same = And(*([ctx.eq(fn.get(k, 0), gn.get(k, 0)) for k in set(fn) | set(gn)] +
+               [ctx.eq(fd.get(k, 0), gd.get(k, 0)) for k in set(fd) | set(gd)]))
+  if not bool(same):
+    ctx.exclude("operator route normalised the two differently (not the same polynomials)")
+  e, ne = bool(f == g), bool(f != g)
+  ctx.prove(e and not ne, "reordered-terms-are-equal", "eq=%s ne=%s" % (e, ne))
+  ctx.prove(hash(f) == hash(g), "equal-filters-hash-equal", "term order %s" % how)
+
+
 def h_linearize(ctx, cfg):
   """linearize splits a (dyadic, hence float-exact) fractional delay between its integer neighbours."""
   from audiolazy import ZFilter
@@ -270,6 +297,10 @@ def tasks(tier, seed):
       if fs[0] + fs[1] + gs[0] + gs[1] <= 6:
         T.append(("h_field", {"law": "subst", "f": fs, "g": gs}))
       T.append(("h_eqne", {"f": fs, "g": gs}))
+  for how in ("dict", "ops", "ops-vs-ops"):
+    for eb, ea in (([0, 1], [0]), ([0, 1, 2], [0, 1]), ([0, 0.5], [0]), ([0, 1], [0, 0.5, 1]), ([0.25, 0, 1.5], [0, 2]),
+                   ([1, 0], [0, 1])):
+      T.append(("h_eq_order", {"how": how, "eb": eb, "ea": ea}))
   tri = [((1, 1), (1, 1), (1, 1)), ((2, 1), (1, 2), (1, 1)), ((1, 1), (2, 1), (1, 2))]
   if big: tri += [((1, 2), (1, 2), (2, 1)), ((2, 1), (2, 1), (1, 2)), ((2, 2), (1, 2), (2, 1)), ((2, 2), (2, 2), (1, 1))]
   for fs, gs, hs in tri:
